@@ -1,7 +1,7 @@
 SPECIFICATION Spec
 CONSTANTS
   Dev = {}
-  MaxTotal = 64
+  MaxTotal = 160
   MaxThreads = 16
   EmitReplay = TRUE
 INVARIANTS BuildCorrect SplitCorrect NoAbort EmitSplit
